@@ -80,3 +80,27 @@ pub fn position_amounts(l: u128, p: u128, pl: u128, pu: u128, up: bool) -> (BigU
 pub fn owed_delta(l: u128, growth_delta: u128) -> BigUint {
     (b(l) * b(growth_delta)) >> 64u32
 }
+
+/// a liquidity whose exact (unrounded) amount of one token lies in [target, target + 1): the inverse of the
+/// cost function, so that the rounded amounts land on chosen boundaries of the u64 result type
+pub fn liquidity_for_amount(p: u128, pl: u128, pu: u128, token_a: bool, target: u128, frac: u32) -> Option<u128> {
+    let pc = p.clamp(pl, pu);
+    let t = (b(target) << 32u32) + BigUint::from(frac);
+    let l = if token_a {
+        if pc >= pu {
+            return None;
+        }
+        // amount_a = L * 2^64 * (pu - pc) / (pc * pu)
+        (t * b(pc) * b(pu)) / ((b(pu - pc)) << 96u32)
+    } else {
+        if pc <= pl {
+            return None;
+        }
+        // amount_b = L * (pc - pl) / 2^64
+        (t << 32u32) / b(pc - pl)
+    };
+    l.to_u128()
+}
+
+pub const AMOUNT_TARGETS: &[u128] = &[0, 1, 2, (1 << 32) - 1, 1 << 32, (1 << 63) - 1, 1 << 63, u64::MAX as u128 - 1, u64::MAX as u128, 1 << 64, (1 << 64) + 1];
+
